@@ -54,6 +54,16 @@ class AbsCalG(Gen):
     def concretize(self, v, ev, live):
         return v
 
+    def realize(self, v, ev, ctx):
+        from specs import cal_abs
+
+        o = ctx.get("ordinal_override", {}).get(self.name)
+        if o is None:
+            o = ev(v.ordinal)
+        cc = cal_abs.ConcreteCal(o)
+        ctx.setdefault("cals", {})[self.name] = cc
+        return cc
+
 
 class YmdG(Gen):
     """A valid (year, month, day) of the named abstract calendar, as a packed _YearMonthDay (with ghost components)."""
@@ -74,6 +84,16 @@ class YmdG(Gen):
             for ax in ac.ax_year(y) + [ac.ax_month(y, m)]:
                 b.assume(ax)
         return SObj(_YearMonthDay, {"_YearMonthDay__value": packmodel.pack_ymd(y, m, d), "$y": y, "$m": m, "$d": d}, owner=-1, tag=name)
+
+    def realize(self, v, ev, ctx):
+        from pyoda_time._year_month_day import _YearMonthDay
+
+        cc = ctx["cals"][self.cal]
+        y, m, d = cc.clamp(ev(v.fields["$y"]), ev(v.fields["$m"]), ev(v.fields["$d"]))
+        o = _YearMonthDay._ctor(year=y, month=m, day=d)
+        for k, x in (("$y", y), ("$m", m), ("$d", d)):
+            object.__setattr__(o, k, x)
+        return o
 
 
 class LocalDateG(Gen):
@@ -96,3 +116,52 @@ class LocalDateG(Gen):
             b.assume(ax)
         ymdc = SObj(_YearMonthDayCalendar, {"_YearMonthDayCalendar__value": packmodel.pack_ymd(y, m, d) * 64 + ac.ordinal, "$y": y, "$m": m, "$d": d, "$o": ac.ordinal}, owner=-1, tag=name + ".ymdc")
         return SObj(LocalDate, {"_LocalDate__year_month_day_calendar": ymdc}, owner=-1, tag=name)
+
+    def realize(self, v, ev, ctx):
+        from pyoda_time import LocalDate
+
+        cc = ctx["cals"][self.cal]
+        f = v.fields["_LocalDate__year_month_day_calendar"].fields
+        y, m, d = cc.clamp(ev(f["$y"]), ev(f["$m"]), ev(f["$d"]))
+        return ghosted_date(LocalDate(y, m, d, cc.system))
+
+
+class YearMonthG(Gen):
+    def __init__(self, cal: str = "cal") -> None:
+        self.cal = cal
+
+    def make(self, name, b):
+        from pyvc import sym
+        from pyvc.sym import And
+        from pyvc.values import SObj
+        from pyoda_time._year_month import YearMonth
+        from pyoda_time._year_month_day_calendar import _YearMonthDayCalendar
+        from specs import cal_abs, packmodel
+
+        ac = b.named[self.cal]
+        y, m = sym.var_int(f"{name}.y"), sym.var_int(f"{name}.m")
+        b.assume(And(y >= ac.min_year, y <= ac.max_year, m >= 1, m <= cal_abs.miy(ac.cid, y)))
+        for ax in ac.ax_year(y) + ac.ax_year(y + 1) + [ac.ax_month(y, m)]:
+            b.assume(ax)
+        ymdc = SObj(_YearMonthDayCalendar, {"_YearMonthDayCalendar__value": packmodel.pack_ymd(y, m, 1) * 64 + ac.ordinal, "$y": y, "$m": m, "$d": 1, "$o": ac.ordinal}, owner=-1, tag=name + ".ymdc")
+        return SObj(YearMonth, {"_YearMonth__start_of_month": ymdc}, owner=-1, tag=name)
+
+    def realize(self, v, ev, ctx):
+        from pyoda_time import YearMonth
+
+        cc = ctx["cals"][self.cal]
+        f = v.fields["_YearMonth__start_of_month"].fields
+        y, m, _ = cc.clamp(ev(f["$y"]), ev(f["$m"]), 1)
+        ym = YearMonth(year=y, month=m, calendar=cc.system)
+        o = object.__getattribute__(ym, "_YearMonth__start_of_month")
+        for k, x in (("$y", y), ("$m", m), ("$d", 1), ("$o", cc.ordinal)):
+            object.__setattr__(o, k, x)
+        return ym
+
+
+def ghosted_date(ld):
+    """Attach the ghost components ($y, $m, $d, $o) to a real LocalDate so that the views work on it."""
+    o = object.__getattribute__(ld, "_LocalDate__year_month_day_calendar")
+    for k, x in (("$y", o._year), ("$m", o._month), ("$d", o._day), ("$o", int(o._calendar_ordinal))):
+        object.__setattr__(o, k, x)
+    return ld
